@@ -106,3 +106,24 @@ package limiter
 //@   ensures [rejected_means_timeout_and_no_call] ghost.fwd == old(ghost.fwd) ==> err == core.ErrTimeout
 //@   ensures [result_passthrough] ghost.fwd == old(ghost.fwd) + 1 ==>
 //@       same(result, ghost.ret_result) && same(err, ghost.ret_err)
+
+// The rate limiter's configuration: the options have the last word. What the last option left in
+// maxPermits and timeout is what the limiter runs with (an explicit burst of 0 stays 0); the
+// constructor only supplies the defaults BEFORE the options run.
+//@ ghost opt_max real
+//@ ghost opt_timeout int
+// (assumed) an option may set any configuration field; the ghosts record what it left
+//@ type Option(l)
+//@   havoc
+//@   modifies ghost.opt_max, ghost.opt_timeout
+//@   ensures ghost.opt_max == l.maxPermits && ghost.opt_timeout == l.timeout
+
+//@ func NewRateLimiter
+//@   prop C17
+//@   havoc
+//@   modifies ghost.opt_max, ghost.opt_timeout, ghost.clock
+//@   loop 1 invariant l != nil && 0 <= rangeidx() && rangeidx() <= len(options)
+//@   loop 1 invariant [last_option_decides] rangeidx() >= 1 ==> l.maxPermits == ghost.opt_max && l.timeout == ghost.opt_timeout
+//@   loop 1 invariant [defaults_until_an_option_runs] rangeidx() == 0 ==> l.timeout == 0
+//@   ensures [the_options_have_the_last_word] len(options) > 0 ==> result.maxPermits == ghost.opt_max && result.timeout == ghost.opt_timeout
+//@   ensures [no_burst_limit_and_no_waiting_by_default] len(options) == 0 ==> result.timeout == 0
